@@ -83,14 +83,27 @@ def run_programs(ck, sources, tag, ninputs=8):
                 rec["ret"] = field(forms, "ret")
                 semjobs.append(f"(sem q{i} {ast} {inss})")
                 rec["semid"] = f"q{i}"
-        elif r.startswith("(compile crash)") or "abort" in r or "timeout" in r:
+        elif r.startswith("(compile crash") or "abort" in r or "timeout" in r:
             rec["status"] = "crash"
+            forms = split_top(r)
+            ast = field(forms, "ast")
+            if ast:
+                semjobs.append(f"(sem q{i} {ast} (inss))")
+                rec["semid"] = f"q{i}"
         recs.append(rec)
     ml = run_jobs(MODELRUN, semjobs, tag + ".ml", timeout_per_job=3.0)
     for rec in recs:
+        if rec["status"] == "crash" and "semid" in rec:
+            m = ml.get(rec["semid"], "")
+            rec["wt"] = True if m.startswith("(wt 1)") else False if m.startswith("(wt 0)") else None
         if rec["status"] == "compiled":
             m = ml.get(rec["semid"], "(no-result)")
-            rec["model"] = split_top(m)
+            forms = split_top(m)
+            rec["wt"] = None
+            if forms and forms[0].startswith("(wt "):
+                rec["wt"] = forms[0] == "(wt 1)"
+                forms = forms[1:]
+            rec["model"] = forms
             rec["model_raw"] = m[:300]
     return recs
 
